@@ -174,3 +174,21 @@ func ZvC09_S2_LongestPrefix() {
 	}
 	vrt.Assert(vrt.StrEq(got, s[:best]), "C09/LongestPrefix/longest-stored-key-that-is-a-prefix")
 }
+
+// ZvC09_S2_QueryAfterQuery: the prefix queries share one result queue. A second query must return
+// exactly its own answer even when the caller has not drained the result of an earlier one
+// (leftovers of an earlier Keys()/StartsWith() must never be handed out again).
+func ZvC09_S2_QueryAfterQuery() {
+	t, r := zvBuild()
+	if vrt.Choice(2) == 0 {
+		t.Keys() // result deliberately left undrained
+	} else {
+		t.StartsWith(vrt.Str(1))
+	}
+	p := vrt.Str(1 + vrt.Choice(2))
+	q, err := t.StartsWith(p)
+	vrt.Assert(err == nil, "C09/StartsWith/no-error")
+	zvSameKeys(zvDrain(q), r.sorted(func(k string) bool { return zvHasPrefix(k, p) }), "C09/StartsWith/second-query-returns-exactly-its-own-keys")
+	q2, _ := t.Keys()
+	zvSameKeys(zvDrain(q2), r.sorted(func(string) bool { return true }), "C09/Keys/after-other-queries")
+}
